@@ -14,6 +14,9 @@ import NfpmModel.Lemmas.VersionLemmas
     dpkg_numeric_order / dpkg_semver_order
         two versions that share leading numeric components and then carry d1 < d2 (as numbers:
         `digitsVal`, leading zeros and any length allowed) compare as "less" under verrevcmp, whatever follows
+    parse_components / dpkg_parsed_versions_order / deb_tail_noDigitHead
+        every numeric component the recogniser returns is a digit run, so the M.m.p nfpm stores for two parsable
+        version strings compare under verrevcmp as the number triples do, whatever nfpm appends ('~', '+', '-')
     rpm_numeric_order
         the same under rpm's rpmvercmp (the rpm epoch is a header tag of its own, compared as an integer by rpm)
     dpkg_epoch_dominates / dpkg_epoch_over_none
@@ -593,5 +596,111 @@ example : verrevcmp (b!"1.2.3~rc.1+git") (b!"1.2.3+git") < 0 := by decide
 example : rpmvercmp (b!"1.2.3~rc.1+git") (b!"1.2.3+git") = -1 := by decide
 example : (SemVer.parse (b!"v1.2-rc.1+git")).map SemVer.render = some (b!"1.2.0-rc.1+git") := by decide
 example : SemVer.parse (b!"1.02.3") = none := by decide
+
+/-! ### the versions nfpm derives from a parsed version string order numerically -/
+
+section ParsedOrder
+open SemVer
+
+theorem mem_takeWhile_true {α} (p : α → Bool) (l : List α) (x : α) (h : x ∈ l.takeWhile p) : p x = true := by
+  induction l with
+  | nil => simp at h
+  | cons c t ih =>
+    simp only [List.takeWhile_cons] at h
+    split at h
+    · rename_i hc
+      simp only [List.mem_cons] at h
+      rcases h with e | e
+      · subst e; exact hc
+      · exact ih e
+    · simp at h
+
+theorem digitRun_zero : DigitRun [48] := ⟨by simp, by intro x hx; simp at hx; subst hx; decide⟩
+
+theorem takeNum_digitRun (s d r : Bytes) (h : takeNum s = some (d, r)) : DigitRun d := by
+  cases s with
+  | nil => simp [takeNum] at h
+  | cons c rest =>
+    simp only [takeNum] at h
+    split at h
+    · simp only [Option.some.injEq, Prod.mk.injEq] at h; rw [← h.1]; exact digitRun_zero
+    · split at h
+      · rename_i hc
+        simp only [Option.some.injEq, Prod.mk.injEq] at h
+        rw [← h.1]
+        refine ⟨by simp, ?_⟩
+        intro x hx
+        simp only [List.mem_cons] at hx
+        rcases hx with e | e
+        · subst e; exact hc
+        · exact mem_takeWhile_true isDigit _ x e
+      · simp at h
+
+theorem optNum_digitRun (s : Bytes) : DigitRun ((optNum s).1.getD [48]) := by
+  unfold optNum
+  split
+  · split
+    · split
+      · rename_i d r h; simpa using takeNum_digitRun _ d r h
+      · exact digitRun_zero
+    · exact digitRun_zero
+  · exact digitRun_zero
+
+theorem optNum_fst_digitRun (s : Bytes) (d : Bytes) (h : (optNum s).1 = some d) : DigitRun d := by
+  have := optNum_digitRun s
+  rw [h] at this
+  simpa using this
+
+/-- every numeric component of a parsed semantic version is a non-empty digit string -/
+theorem parse_components (s : Bytes) (v : V) (h : parse s = some v) :
+    DigitRun v.major ∧ DigitRun v.minor ∧ DigitRun v.patch := by
+  unfold parse at h
+  simp only [] at h
+  split at h
+  · simp at h
+  · rename_i maj r hmaj
+    have hM := takeNum_digitRun _ maj r hmaj
+    simp only [Option.ite_none_left_eq_some, Option.some.injEq] at h
+    obtain ⟨_, _, _, hv⟩ := h
+    subst hv
+    refine ⟨hM, optNum_digitRun r, ?_⟩
+    simp only []
+    split
+    · exact optNum_digitRun _
+    · exact digitRun_zero
+
+/-- **the versions nfpm derives order numerically** (deb, ipk): for two version strings that parse as semantic
+    versions, the `major.minor.patch` nfpm packages (`SemVer.core`, what `withDefaultsVersion` stores: see
+    `split_from_version`) compare under dpkg's verrevcmp as the number triples do, whatever follows them -/
+theorem dpkg_parsed_versions_order (s1 s2 : Bytes) (v1 v2 : V) (h1 : parse s1 = some v1) (h2 : parse s2 = some v2)
+    (A B : Bytes) (hA : NoDigitHead A) (hB : NoDigitHead B)
+    (hlt : digitsVal v1.major < digitsVal v2.major ∨ (v1.major = v2.major ∧ digitsVal v1.minor < digitsVal v2.minor) ∨
+      (v1.major = v2.major ∧ v1.minor = v2.minor ∧ digitsVal v1.patch < digitsVal v2.patch)) :
+    verrevcmp (SemVer.core v1 ++ A) (SemVer.core v2 ++ B) < 0 := by
+  obtain ⟨a1, b1, c1⟩ := parse_components s1 v1 h1
+  obtain ⟨a2, b2, c2⟩ := parse_components s2 v2 h2
+  have := dpkg_semver_order v1.major v1.minor v1.patch v2.major v2.minor v2.patch A B a1 b1 c1 a2 b2 c2 hA hB hlt
+  simpa [SemVer.core, List.append_assoc] using this
+
+/-- what deb / ipk write after the version is empty or starts with '~', '+' or '-': never a digit -/
+theorem deb_tail_noDigitHead (i : VInfo) :
+    ∃ T, debVersion false i = i.version ++ T ∧ NoDigitHead T := by
+  refine ⟨(if i.prerelease ≠ [] then tilde :: i.prerelease else [])
+    ++ (if i.metadata ≠ [] then plus :: i.metadata else [])
+    ++ (if i.release ≠ [] then minus :: i.release else []), by simp [debVersion], ?_⟩
+  unfold NoDigitHead
+  by_cases hp : i.prerelease = []
+  · by_cases hm : i.metadata = []
+    · by_cases hr : i.release = []
+      · left; simp [hp, hm, hr]
+      · right; exact ⟨minus, i.release, by simp [hp, hm, hr], by decide⟩
+    · right; exact ⟨plus, i.metadata ++ (if i.release ≠ [] then minus :: i.release else []), by simp [hp, hm], by decide⟩
+  · right
+    exact ⟨tilde, i.prerelease ++ ((if i.metadata ≠ [] then plus :: i.metadata else [])
+      ++ (if i.release ≠ [] then minus :: i.release else [])), by simp [hp], by decide⟩
+
+example : (parse (b!"v1.9")).map SemVer.core = some (b!"1.9.0") := by decide
+
+end ParsedOrder
 
 end Nfpm.Props.C14
